@@ -1,6 +1,6 @@
 SPECIFICATION Spec
 CONSTANTS
-  DimNames = {"[A]", "[B]", "[V]"}
+  DimNames = {"[A]", "[B]", "[V]", "[W]", "[X]"}
   Dev_PowKeepsZeros = FALSE
 INVARIANT OrderAndLayoutIndependent
 INVARIANT IllFormedRejected
